@@ -98,9 +98,14 @@ pub fn judge(p: &Program) -> Outcome {
                     }
                     hops += 1;
                     if hops > idoc.components.len() {
+                        let by_reference = matches!(refsem::meaning(p), Err(Stop::Stuck(w)) if w == "unguarded recursion");
                         return Outcome::bad(
                             "unguarded",
-                            "accepted | recursion without a schema to cut at: a component is a bare $ref chain back to itself".into(),
+                            if by_reference {
+                                "accepted | recursion without a schema to cut at: a component is a bare $ref chain back to itself".into()
+                            } else {
+                                "accepted | a component is a bare $ref chain back to itself although the recursion of the program is guarded".into()
+                            },
                             format!("component {name}"),
                             case(),
                         );
@@ -119,16 +124,17 @@ pub fn judge(p: &Program) -> Outcome {
                         )
                     }
                     Err(msg) => {
-                        if !refsem::last_notes().is_empty() {
+                        let notes = refsem::last_notes();
+                        if notes.iter().any(|n| n.contains("path") || n.contains("@name")) {
                             // Collisions of paths / @names are C02's business, not recursion.
                             return Outcome::ok("program with a path or @name collision (see C02)", None);
                         }
-                        Outcome::bad(
-                            "differs",
-                            format!("document differs | {}", c02::diff_class(&msg)),
-                            msg,
-                            case(),
-                        )
+                        let sig = if notes.is_empty() {
+                            format!("document differs | {}", c02::diff_class(&msg))
+                        } else {
+                            format!("document differs | {} | program has {}", c02::diff_class(&msg), notes.join(" and "))
+                        };
+                        Outcome::bad("differs", sig, msg, case())
                     }
                 },
                 Err(Stop::Unspecified(_)) => Outcome::ok("unspecified by the language: crash check only", None),
